@@ -1164,20 +1164,32 @@ var faultKinds = []faultKind{
 		return nil, sCall(eCallN("error", eTbl(fName("code", g.intLit(99))))), true
 	}},
 	{"error-string-level0", func(g *gen) ([]*Stmt, *Stmt, bool) {
-		return nil, sCall(eCallN("error", eStr("boom"), eInt(0))), true
+		return nil, sCall(eCallN("error", g.errMsg("boom"), eInt(0))), true
 	}},
 	{"error-string", func(g *gen) ([]*Stmt, *Stmt, bool) {
-		return nil, sCall(eCallN("error", eStr("boom"))), g.feat("errpos")
+		return nil, sCall(eCallN("error", g.errMsg("boom"))), g.feat("errpos")
 	}},
 	{"error-level1", func(g *gen) ([]*Stmt, *Stmt, bool) {
-		return nil, sCall(eCallN("error", eStr("lvl1"), eInt(1))), g.feat("errpos")
+		return nil, sCall(eCallN("error", g.errMsg("lvl1"), eInt(1))), g.feat("errpos")
 	}},
 	{"error-level2", func(g *gen) ([]*Stmt, *Stmt, bool) {
-		return nil, sCall(eCallN("error", eStr("lvl2"), eInt(2))), g.feat("errpos")
+		return nil, sCall(eCallN("error", g.errMsg("lvl2"), eInt(2))), g.feat("errpos")
 	}},
 	{"assert-false", func(g *gen) ([]*Stmt, *Stmt, bool) {
-		return nil, sCall(eCallN("assert", Pick(g.r, []*Expr{eFalse(), eNil()}), eStr("assertion msg"))), true
+		return nil, sCall(eCallN("assert", Pick(g.r, []*Expr{eFalse(), eNil()}), g.errMsg("assertion msg"))), true
 	}},
+}
+
+// errMsg: the text of a raised message.  A third of them carry characters that a formatting layer between the
+// raise and the catch could mangle (%-verbs, a lone %, %%, a line break): an error VALUE is delivered as raised.
+var errMsgTails = []string{" 100% done", " rate=%d", " %s", "%", " a%%b", "\n2nd line", " [%q]", " %!", " %v %d", " %5.2f"}
+
+func (g *gen) errMsg(base string) *Expr {
+	if g.r.Intn(3) == 0 {
+		g.extra["errmsg:percent"]++
+		return eStr(base + Pick(g.r, errMsgTails))
+	}
+	return eStr(base)
 }
 
 // faultSite: ONE statement that raises a runtime error when executed, at a position that is certainly executed,
